@@ -58,13 +58,13 @@ func goStr(v value) string {
 func init() {
 	externals2 = map[string]externalFn{
 		// ---- symx
-		"verif/symx.Int":         func(fr *frame, a []value) value { return mkSym(fr.i.newInput(goStr(a[0]), "int", 64), types.Int) },
-		"verif/symx.Int64":       func(fr *frame, a []value) value { return mkSym(fr.i.newInput(goStr(a[0]), "int64", 64), types.Int64) },
-		"verif/symx.Uint64":      func(fr *frame, a []value) value { return mkSym(fr.i.newInput(goStr(a[0]), "uint64", 64), types.Uint64) },
-		"verif/symx.Uint32":      func(fr *frame, a []value) value { return mkSym(fr.i.newInput(goStr(a[0]), "uint32", 32), types.Uint32) },
-		"verif/symx.Int32":       func(fr *frame, a []value) value { return mkSym(fr.i.newInput(goStr(a[0]), "int32", 32), types.Int32) },
-		"verif/symx.Byte":        func(fr *frame, a []value) value { return mkSym(fr.i.newInput(goStr(a[0]), "byte", 8), types.Uint8) },
-		"verif/symx.Bool":        func(fr *frame, a []value) value { return mkSym(fr.i.newInput(goStr(a[0]), "bool", 0), types.Bool) },
+		"verif/symx.Int":    func(fr *frame, a []value) value { return mkSym(fr.i.newInput(goStr(a[0]), "int", 64), types.Int) },
+		"verif/symx.Int64":  func(fr *frame, a []value) value { return mkSym(fr.i.newInput(goStr(a[0]), "int64", 64), types.Int64) },
+		"verif/symx.Uint64": func(fr *frame, a []value) value { return mkSym(fr.i.newInput(goStr(a[0]), "uint64", 64), types.Uint64) },
+		"verif/symx.Uint32": func(fr *frame, a []value) value { return mkSym(fr.i.newInput(goStr(a[0]), "uint32", 32), types.Uint32) },
+		"verif/symx.Int32":  func(fr *frame, a []value) value { return mkSym(fr.i.newInput(goStr(a[0]), "int32", 32), types.Int32) },
+		"verif/symx.Byte":   func(fr *frame, a []value) value { return mkSym(fr.i.newInput(goStr(a[0]), "byte", 8), types.Uint8) },
+		"verif/symx.Bool":   func(fr *frame, a []value) value { return mkSym(fr.i.newInput(goStr(a[0]), "bool", 0), types.Bool) },
 		"verif/symx.Float64": func(fr *frame, a []value) value {
 			t := fr.i.newInput(goStr(a[0]), "float64", 64)
 			return mkSym(fr.i.ctx.FPOfBits(t), types.Float64)
@@ -168,29 +168,31 @@ func init() {
 		},
 
 		// ---- runtime / unsafe / abi
-		"internal/abi.NoEscape":           func(fr *frame, a []value) value { return a[0] },
-		"internal/abi.Escape":             func(fr *frame, a []value) value { return a[0] },
-		"runtime.KeepAlive":               func(fr *frame, a []value) value { return nil },
-		"runtime.SetFinalizer":            func(fr *frame, a []value) value { return nil },
-		"runtime.Gosched":                 func(fr *frame, a []value) value { return nil },
-		"runtime.GC":                      func(fr *frame, a []value) value { return nil },
-		"runtime.NumGoroutine":            func(fr *frame, a []value) value { return 1 },
-		"runtime/debug.Stack":             func(fr *frame, a []value) value { b, _ := strBytes("goroutine 1 [running]:\n"); return b },
-		"runtime/debug.SetGCPercent":      func(fr *frame, a []value) value { return 100 },
-		"os/signal.Notify":                func(fr *frame, a []value) value { return nil },
-		"os.Getenv":                       func(fr *frame, a []value) value { return "" },
-		"os.LookupEnv":                    func(fr *frame, a []value) value { return tuple{"", false} },
-		"os.Getwd":                        func(fr *frame, a []value) value { return tuple{"/", iface{}} },
-		"os.Exit":                         func(fr *frame, a []value) value { panic(abort{kind: "exit", msg: fmt.Sprint(asInt64(a[0]))}) },
-		"time.Sleep":                      func(fr *frame, a []value) value { return nil },
+		"internal/abi.NoEscape":      func(fr *frame, a []value) value { return a[0] },
+		"internal/abi.Escape":        func(fr *frame, a []value) value { return a[0] },
+		"runtime.Caller":             func(fr *frame, a []value) value { return tuple{uintptr(0), "go-source.go", 1, true} },
+		"runtime.Callers":            func(fr *frame, a []value) value { return 0 },
+		"runtime.KeepAlive":          func(fr *frame, a []value) value { return nil },
+		"runtime.SetFinalizer":       func(fr *frame, a []value) value { return nil },
+		"runtime.Gosched":            func(fr *frame, a []value) value { return nil },
+		"runtime.GC":                 func(fr *frame, a []value) value { return nil },
+		"runtime.NumGoroutine":       func(fr *frame, a []value) value { return 1 },
+		"runtime/debug.Stack":        func(fr *frame, a []value) value { b, _ := strBytes("goroutine 1 [running]:\n"); return b },
+		"runtime/debug.SetGCPercent": func(fr *frame, a []value) value { return 100 },
+		"os/signal.Notify":           func(fr *frame, a []value) value { return nil },
+		"os.Getenv":                  func(fr *frame, a []value) value { return "" },
+		"os.LookupEnv":               func(fr *frame, a []value) value { return tuple{"", false} },
+		"os.Getwd":                   func(fr *frame, a []value) value { return tuple{"/", iface{}} },
+		"os.Exit":                    func(fr *frame, a []value) value { panic(abort{kind: "exit", msg: fmt.Sprint(asInt64(a[0]))}) },
+		"time.Sleep":                 func(fr *frame, a []value) value { return nil },
 		"(*strings.Builder).String": func(fr *frame, a []value) value {
 			b := (*a[0].(*value)).(structure)
 			buf, _ := b[1].([]value)
 			return mkStr(append([]value{}, buf...))
 		},
 		"(*strings.Builder).copyCheck": func(fr *frame, a []value) value { return nil },
-		"strings.Clone":               func(fr *frame, a []value) value { return a[0] },
-		"internal/stringslite.Clone":  func(fr *frame, a []value) value { return a[0] },
+		"strings.Clone":                func(fr *frame, a []value) value { return a[0] },
+		"internal/stringslite.Clone":   func(fr *frame, a []value) value { return a[0] },
 		"internal/bytealg.MakeNoZero": func(fr *frame, a []value) value {
 			n := int(asInt64(a[0]))
 			out := make([]value, n)
@@ -199,20 +201,20 @@ func init() {
 			}
 			return out
 		},
-		"internal/bytealg.IndexByte":          extIndexByte,
-		"internal/bytealg.IndexByteString":    extIndexByte,
+		"internal/bytealg.IndexByte":           extIndexByte,
+		"internal/bytealg.IndexByteString":     extIndexByte,
 		"internal/bytealg.LastIndexByte":       extLastIndexByte,
 		"internal/bytealg.LastIndexByteString": extLastIndexByte,
-		"internal/bytealg.CountString":        extCountByte,
-		"internal/bytealg.Count":              extCountByte,
-		"internal/bytealg.Equal":              extBytesEqual,
-		"bytes.Equal":                         extBytesEqual,
-		"internal/bytealg.IndexString":        extIndexString,
-		"internal/bytealg.Index":              extIndexString,
-		"internal/bytealg.Compare":            extCompare,
-		"internal/bytealg.CompareString":      extCompare,
-		"bytes.Compare":                       extCompare,
-		"strings.Compare":                     extCompare,
+		"internal/bytealg.CountString":         extCountByte,
+		"internal/bytealg.Count":               extCountByte,
+		"internal/bytealg.Equal":               extBytesEqual,
+		"bytes.Equal":                          extBytesEqual,
+		"internal/bytealg.IndexString":         extIndexString,
+		"internal/bytealg.Index":               extIndexString,
+		"internal/bytealg.Compare":             extCompare,
+		"internal/bytealg.CompareString":       extCompare,
+		"bytes.Compare":                        extCompare,
+		"strings.Compare":                      extCompare,
 
 		"math.Floor": func(fr *frame, a []value) value { return mathFn(a[0], math.Floor, "Floor") },
 		"math.Ceil":  func(fr *frame, a []value) value { return mathFn(a[0], math.Ceil, "Ceil") },
